@@ -307,3 +307,5 @@ def run(facts, rep, tier):
     c01.rule_r3(facts, rep, rid="C07-R3")
     c01.rule_r5(facts, rep, rid="C07-R3b")
     rule_r4(facts, rep)
+    # C07-R5 = C01-R10: a block after a list of empty items must not become a child of the list ("every block stays ... at the same nesting depth")
+    c01.rule_r10(facts, rep, rid="C07-R5")
